@@ -1066,9 +1066,8 @@ fn scenarios(lines: &mut Vec<String>) {
 /// change goes through x every wrapper stack put on top afterwards, over an underlying database that
 /// holds NON-ZERO storage for the affected account; then every read kind through every access path
 /// (`paths`), through `Database` (`q`) and `DatabaseRef` (`r`), for the affected account, another
-/// account with storage and an absent one. `full` = the complete cross product (thorough tier);
-/// otherwise kinds x accounts x stacks are complete and the other two dimensions rotate with the seed.
-fn commit_grid(lines: &mut Vec<String>, seed: u64, full: bool) {
+/// account with storage and an absent one. The complete cross product is generated on every run (about 6000 cases).
+fn commit_grid(lines: &mut Vec<String>) {
     let ke = hxh(KECCAK_EMPTY);
     let code = vec![0x60u8, 0x00];
     let ch = hxh(keccak256(&code));
@@ -1154,16 +1153,11 @@ fn commit_grid(lines: &mut Vec<String>, seed: u64, full: bool) {
             }
         }
     };
-    let mut rot = seed as usize;
-    for (ki, (_name, kind)) in kinds.iter().enumerate() {
+    for (_name, kind) in kinds.iter() {
         for x in [1u64, 2] {
-            for (si, stack) in stacks.iter().enumerate() {
-                let combos: Vec<(usize, usize)> = if full {
-                    (0..pres.len()).flat_map(|p| (0..vias.len()).map(move |v| (p, v))).collect()
-                } else {
-                    rot += 1;
-                    vec![((rot + ki) % pres.len(), (rot / pres.len() + si) % vias.len())]
-                };
+            for stack in stacks.iter() {
+                let combos: Vec<(usize, usize)> =
+                    (0..pres.len()).flat_map(|p| (0..vias.len()).map(move |v| (p, v))).collect();
                 for (pi, vi) in combos {
                     let change = kind(x);
                     let via = &vias[vi];
@@ -1210,7 +1204,7 @@ pub fn gen(seed: u64, n: usize) -> Vec<String> {
     let mut rng = Rng::new(seed ^ 0xC20);
     let mut lines = vec![];
     scenarios(&mut lines);
-    commit_grid(&mut lines, seed, n >= 5000);
+    commit_grid(&mut lines);
     for i in 0..n {
         let max_ops = if i % 10 == 0 { 120 } else { 40 };
         gen_case(&mut rng, &mut lines, max_ops);
